@@ -8,7 +8,7 @@
 (*            rounding noise, through the constructor, +, - and inverted() *)
 (*   apply    3-vector, homogeneous and Cartesian application to points    *)
 (***************************************************************************)
-EXTENDS Symop, TLC, Json, IOUtils
+EXTENDS SymopText, TLC, Json, IOUtils
 
 CONSTANT NBlocks
 ASSUME TLCSet(1, JsonDeserialize(IOEnv.TRACE_FILE).traces)     \* parsed once, not once per worker
@@ -36,8 +36,19 @@ SpellingEv(t) ==
   LET op == Dec(t.c) IN
   IF ~(InRange(t.c) /\ \A i \in 1..3 : StyleOK(t.styles[i]) /\ NonZeroRow(op.r[i])) THEN "OOD style" ELSE
   IF t.text # Spelling(op, t.styles, t.sep) THEN "OOD BadSpelling" ELSE
+  \* the specification's own reader (SymopText) must read the certified spelling as the same operation
+  IF ~(ParseTextB(t.bytes).ok /\ Norm(ParseTextB(t.bytes).op) = Norm(op)) THEN "OOD spec-reader-disagrees-with-grammar" ELSE
   IF t.exc # "" THEN "REJECT Raised" ELSE
   IF t.code # t.c THEN "REJECT ParseSpelling" ELSE
+  "ACCEPT"
+
+(* any text (from CIF files, or composed freely): judged by the specification's reader alone *)
+TextEv(t) ==
+  LET pt == ParseTextB(t.bytes) IN
+  IF ~pt.ok THEN "OOD not-a-usual-spelling" ELSE
+  IF ~Encodable(pt.op) THEN "OOD rotation-entry-out-of-range" ELSE
+  IF t.exc # "" THEN "REJECT Raised:text" ELSE
+  IF t.code # Enc(pt.op) THEN "REJECT ParseText" ELSE
   "ACCEPT"
 
 (* noise ids: 0 none; otherwise +-1e-12 / +-1e-17 on the component pattern; at most 1e-9 in all *)
@@ -70,6 +81,7 @@ ApplyEv(t) ==
 Verdict(t) ==
   CASE t.k = "codec" -> Codec(t)
     [] t.k = "spelling" -> SpellingEv(t)
+    [] t.k = "text" -> TextEv(t)
     [] t.k = "shift" -> ShiftEv(t)
     [] t.k = "apply" -> ApplyEv(t)
     [] OTHER -> "OOD kind"
